@@ -7,6 +7,7 @@ import Drx.Spec.Compile
 import Drx.Spec.LingoRead
 import DrxProofs.SpecCompile
 import DrxProofs.SpecLayout
+import Drx.Spec.Supported
 namespace DrxProps.C03
 open Drx Drx.Spec
 
@@ -17,6 +18,32 @@ open Drx Drx.Spec
 def C03_full (decompile : Bytes → Bytes → Option (List Char)) : Prop :=
   ∀ (o : Options) (s : Script) (c : Compiled), compile o s = .ok c →
     ∃ text, decompile c.lscr c.lnam = some text ∧ readLingo text = some s
+
+/-- The part of the property the code is expected to satisfy: the same statement restricted to scripts all of whose handler bodies
+    avoid the four exit-repeat configurations of the open findings F23, F24, F25, F126 (`C03Supported`, decidable, defined on the
+    SOURCE tree in lean/Drx/Spec/Supported.lean). Evaluated, not proved: harness/c03.py checks on every run that on all enumerated
+    skeletons (≤ 5 compound constructs) and random programs the real decompiler fails EXACTLY on the unsupported handlers. -/
+def C03_partial (decompile : Bytes → Bytes → Option (List Char)) : Prop :=
+  ∀ (o : Options) (s : Script) (c : Compiled), (∀ h ∈ s.handlers, C03Supported h.body = true) → compile o s = .ok c →
+    ∃ text, decompile c.lscr c.lnam = some text ∧ readLingo text = some s
+
+private def put1 : Stmt := .call "put".toList [.int 1]
+private def cnd : Expr := .bin .lt (.var .loc "c".toList) (.int 2)
+
+/-- the minimal witnesses of the four open findings (replayed on the real code from corpus/C03/*.json) are exactly outside
+    `Supported`, each in its own class … -/
+theorem witnesses_unsupported :
+    exitClasses [.repeatWhile cnd [put1, .exitRepeat]] = ["F23"]
+    ∧ exitClasses [.repeatWhile cnd [.ifThen cnd [.exitRepeat] [], .ifThen cnd [put1] []]] = ["F24"]
+    ∧ exitClasses [.repeatWhile cnd [.ifThen cnd [put1] [.exitRepeat]]] = ["F25"]
+    ∧ exitClasses [.repeatWhile cnd [.ifThen cnd [.exitRepeat, put1, put1] []]] = ["F126"] := by decide +kernel
+
+/-- … while the shapes the fixtures contain, and exit-free nestings, are supported -/
+theorem supported_examples :
+    C03Supported [.repeatWhile cnd [.ifThen cnd [put1, .exitRepeat] []], put1] = true
+    ∧ C03Supported [.repeatWith (.var .loc "i".toList) (.int 1) (.int 9) false [put1, .ifThen cnd [.exitRepeat] [put1]]] = true
+    ∧ C03Supported [.ifThen cnd [.repeatWhile cnd [.repeatIn (.var .loc "v".toList) (.list []) [.ifThen cnd [put1] [put1]]]] []] = true
+    ∧ C03Supported [.ifThen cnd [.repeatWhile cnd [.ifThen cnd [.exitRepeat] [], .ifThen cnd [put1] []]] []] = true := by decide +kernel
 
 /-- every jump offset of the layout is computed from sizes: the laid-out code of a statement list has exactly the size the
     scheme assumes (`CStmt.sizes`), for every control skeleton and every `toEnd` -/
